@@ -1219,6 +1219,84 @@ for _fn, _q, _t in (("c14_path_list_index", 40, 120), ("c14_path_list_props", 40
 
 LOADER.warm(ENV)
 
+# ---- block-scoped names vanish after their block also when the block is left by an interrupt or an error ----------
+from liquid import CachingDictLoader as _CDL, Mode as _Mode  # noqa: E402
+
+_IP = {"brk": "{{ x }}{% if x == b %}{% break %}{% endif %}{% if x == c %}{% continue %}{% endif %}.",
+       "inner": "{% for y in ys %}{% include 'brk' %}{% endfor %}"}
+_IENV = Environment(extra=True, loader=_CDL(_IP, auto_reload=False))
+_IENV_LAX = Environment(extra=True, loader=_CDL(_IP, auto_reload=False), tolerance=_Mode.LAX)
+for _e in (_IENV, _IENV_LAX):
+    for _n in _IP:
+        _e.get_template(_n)
+_T_INT = _IENV.from_string("{% for x in xs %}{% include 'brk' %}{% endfor %}|x={{ x }}|f={{ forloop.index }}|{% assign x = 'A' %}{{ x }}|"
+                           "{% for x in xs %}{% with x: 'w' %}{% if forloop.index0 == b %}{% break %}{% endif %}{% endwith %}{{ x }}{% endfor %}|{{ x }}")
+_T_LAX = _IENV_LAX.from_string("{% for x in xs %}{{ x }}{% if x == b %}{{ x | divided_by: 0 }}{% endif %},{% endfor %}|x={{ x }}|f={{ forloop.length }}|"
+                               "{% with q: 1 %}{{ q | divided_by: 0 }}{% endwith %}|q={{ q }}|{% assign x = 'A' %}{{ x }}")
+
+
+def c14_scope_after_interrupt(n: int, b: int, c: int, g: int) -> bool:
+    """
+    pre: 0 <= n <= 3 and 0 <= g <= 9
+    pre: -1 <= b <= 3 and -1 <= c <= 3
+    post: _
+    """
+    # break / continue raised inside an included partial (or a with block) inside a for loop: afterwards the loop
+    # variable and forloop are gone, the render argument x is visible again and a later assign wins
+    if excluded("c14_scope_after_interrupt", locals()):
+        return True
+    xs = list(range(n))
+    try:
+        out = _T_INT.render(xs=xs, b=b, c=c, x=100 + g)
+    except LiquidError as e:
+        return finish(False)
+    exp = ""
+    for i in xs:
+        exp += str(i)
+        if i == b:
+            break
+        if i == c:
+            continue
+        exp += "."
+    exp += "|x=%d|f=|A|" % (100 + g)
+    for i in xs:
+        if i == b:
+            break
+        exp += "A" if False else str(i)
+    exp += "|A"
+    return finish(out == exp)
+
+
+def c14_scope_after_lax_error(n: int, b: int, g: int) -> bool:
+    """
+    pre: 0 <= n <= 3 and 0 <= g <= 9 and -1 <= b <= 3
+    post: _
+    """
+    # lax mode: an error inside a for / with block is swallowed and rendering continues with the next top-level
+    # node; the block's names must be gone
+    if excluded("c14_scope_after_lax_error", locals()):
+        return True
+    xs = list(range(n))
+    try:
+        out = _T_LAX.render(xs=xs, b=b, x=100 + g)
+    except LiquidError:
+        return finish(False)
+    loop = ""
+    hit = False
+    for i in xs:
+        loop += str(i)
+        if i == b:
+            hit = True
+            break
+        loop += ","
+    exp = loop + "|x=%d|f=|" % (100 + g) + "|q=|A"
+    return finish(out == exp)
+
+
+CONDITIONS.append({"fn": "c14_scope_after_interrupt", "quick": 60, "thorough": 200})
+CONDITIONS.append({"fn": "c14_scope_after_lax_error", "quick": 60, "thorough": 200})
+
+
 ASSUMPTIONS = [
     "template sources are concrete skeletons generated in harness/c14.py (the name x bound by for, tablerow, with, macro, capture, assign, include, render, increment, decrement in every nesting order of two, thorough: three); the bound values, the four global layers' values and their presence are symbolic",
     "values are strings of length <= 1 (symbolic ints would be realised by str()); falsy non-string values come from a pool (c14_falsy_layers)",
